@@ -487,6 +487,23 @@ func checkC05(rep *Report, rng *Rng, tier string) {
 			}
 		}
 	}
+	// a reader parked at the end of a NODE read while another reader loads other nodes
+	nodeRun := 0
+	for k := 0; k < reps*6 && len(rep.Violations) == 0; k++ {
+		seed := rng.U64()
+		rep.Evaluations++
+		w := &World{Timeout: 30e9}
+		switch msg := w.guard(func() string { return runParkedNode(seed) }); msg {
+		case "":
+			nodeRun++
+		case "skip":
+			parkedSkipped++
+		default:
+			rep.Violation("", false, map[string]interface{}{"parked_scenario": "reader A parked at the end of its k-th node ReadAt (bytes delivered, call not returned) while reader B looks up keys on other paths", "seed": seed, "observed": msg,
+				"note": "deterministic: no timing involved"})
+		}
+	}
+	rep.Extra["parked_node_read_scenarios_run"] = nodeRun
 	rep.Extra["parked_reader_scenarios_run"] = parkedRun
 	rep.Extra["parked_reader_scenarios_skipped"] = parkedSkipped
 	var tot c05Result
